@@ -28,6 +28,13 @@ pub fn compare_request(req: &parser::Request, info: &ReqInfo, originals: &[Vec<u
     if v.flags != info.flags {
         return Err(("wrong-flags".into(), format!("flags {:#04x} expected {:#04x}", v.flags, info.flags)));
     }
+    {
+        let it = req.env_iter();
+        let (lo, hi) = it.size_hint();
+        if it.len() != req.env_len() || lo > req.env_len() || hi.map_or(false, |h| h < req.env_len()) || it.clone().count() != req.env_len() {
+            return Err(("env-iter-len".into(), format!("env_iter().len() = {}, size_hint = ({lo}, {hi:?}), env_len() = {}", it.len(), req.env_len())));
+        }
+    }
     if v.env_len != info.env.len() || v.env.len() != info.env.len() {
         return Err(("env-size".into(), format!("env_len() = {}, env_iter yields {} keys, model has {} variables", v.env_len, v.env.len(), info.env.len())));
     }
@@ -67,6 +74,9 @@ pub fn compare_request(req: &parser::Request, info: &ReqInfo, originals: &[Vec<u
                     return Err(("lookup-miss".into(), format!("get_var/contains_var({name:?}) does not find the variable stored as {k:?}")));
                 }
             }
+        }
+        if v.env.contains_key(k) && req.get_var_str(VarName::new(k)) != std::str::from_utf8(val).ok() {
+            return Err(("get-var-str".into(), format!("get_var_str({k:?}) disagrees with the UTF-8 decoding of the stored value")));
         }
         l.count("lookups_by_spelling");
     }
